@@ -485,7 +485,7 @@ def run_relay_check(work, prop, tier, replay=None):
         rfails, rstats = receipt_check.answer_stage(work, tier)
         work.log("receipt requests: %d submissions (%d accepted, %d bad request, %d too busy), %d not answered as specified" % (
             rstats["submits"], rstats.get("accepted", 0), rstats.get("bad_request", 0), rstats.get("too_busy", 0), len(rfails)))
-        if rstats["submits"] < 50 or rstats.get("bad_request", 0) < 5:
+        if not rfails and (rstats["submits"] < 50 or rstats.get("bad_request", 0) < 5):
             raise Inconclusive("receipt stage of C04 exercised too little: %s" % rstats)
         for f in rfails:
             hid = "receipt-%s" % f["rid"]
